@@ -124,7 +124,7 @@ func TestC02Replay(t *testing.T) {
 // C10: the parse depends only on the non-elided tokens
 
 const c10Rule = "generated grammars that do not name elided types x token sequences, each rendered to two texts that differ only in " +
-	"elided tokens (whitespace/comment runs at the start, between tokens, at the end; elision sets {WS}, {WS,Comment}); after " +
+	"elided tokens (whitespace/comment runs at the start, between tokens, at the end, runs of 254-766 elided tokens; elision sets {WS}, {WS,Comment}; also through parsers derived for inner productions); after " +
 	"confirming with Parser.Lex that the non-elided (type,text) sequences are equal, acceptance and all captured fields must be " +
 	"equal; 15% of grammars name elided types and are compared with the reference parser's 'first such token before the next " +
 	"ordinary token' rule; non-trivial = the renderings differ by >=3 elided tokens and the parse abandoned >=1 attempt, or a " +
@@ -800,7 +800,7 @@ func TestC11Replay(t *testing.T) {
 
 const c13Rule = "generated grammars without ~ / (?= ) / (?! ) x sampled and mutated inputs, each parsed by parsers built over the same " +
 	"AST types with every lookahead of the ladder 0<1<2<3<5<MaxLookahead<unlimited (-1, -2, MinInt); oracle (metamorphic): success at k implies success " +
-	"at every larger k' with a deeply equal AST; non-trivial = the outcome differs somewhere along the ladder, or the input is accepted " +
+	"at every larger k' with a deeply equal AST (once per process also 100100 flat items and a production nested 12000 deep); non-trivial = the outcome differs somewhere along the ladder, or the input is accepted " +
 	"at every k although the reference parser abandoned >=1 attempt; distinct by SHA-256 of (grammar, input)"
 
 // every negative value means unlimited lookahead
